@@ -1,8 +1,8 @@
 package checks
 
 import (
-	"math/big"
 	"fmt"
+	"math/big"
 
 	"github.com/zenon-network/go-zenon/chain/nom"
 	"github.com/zenon-network/go-zenon/common/types"
